@@ -110,6 +110,22 @@ pub struct Want {
     pub dec: bool,
     pub ui: bool,
     pub raw: bool,
+    pub rules: bool,
+}
+
+// the rule engine's steps recorded by the cfg(smartcalc_verif) hook of the library, as JSON
+fn rule_log() -> Value {
+    let tok = |t: &(String, String)| json!([t.0, t.1]);
+    let mut out: Vec<Value> = Vec::new();
+    for e in smartcalc::verif::take() {
+        out.push(match e {
+            smartcalc::verif::RuleEvent::Start(ts) => json!({"e": "start", "toks": ts.iter().map(tok).collect::<Vec<_>>()}),
+            smartcalc::verif::RuleEvent::Refuse(r) => json!({"e": "refuse", "rule": r}),
+            smartcalc::verif::RuleEvent::Apply(r, ts) => json!({"e": "apply", "rule": r, "toks": ts.iter().map(tok).collect::<Vec<_>>()}),
+            smartcalc::verif::RuleEvent::Done => json!({"e": "done"}),
+        });
+    }
+    Value::Array(out)
 }
 
 macro_rules! project_result {
@@ -153,8 +169,17 @@ fn do_step(st: &mut State, step: &Value, want: &Want, prev: &Vec<Value>) -> Valu
             } else {
                 s(step, "text").to_string()
             };
+            if want.rules {
+                smartcalc::verif::enable(true);
+                let _ = smartcalc::verif::take();
+            }
             let r = calc.execute(s(step, "lang"), text.as_str());
-            json!({"outcome": "returned", "text": text, "res": project_result!(r, want)})
+            let mut v = json!({"outcome": "returned", "text": text, "res": project_result!(r, want)});
+            if want.rules {
+                v["rules"] = rule_log();
+                smartcalc::verif::enable(false);
+            }
+            v
         }
         "session_new" => {
             sessions.insert(s(step, "s").to_string(), Session::new());
@@ -284,6 +309,7 @@ fn run_case(st: &mut State, case: &Value) -> Value {
                 "dec" => want.dec = true,
                 "ui" => want.ui = true,
                 "raw" => want.raw = true,
+                "rules" => want.rules = true,
                 _ => {}
             }
         }
